@@ -5,6 +5,9 @@
 #include "ref/memfs.h"
 #include <stdlib.h>
 
+int __CPROVER_file_local_coap_subscribe_c_coap_op_observe_added(coap_session_t *session, coap_subscription_t *a_observe_key, coap_proto_t a_e_proto,
+    coap_address_t *a_e_listen_addr, coap_addr_tuple_t *a_s_addr_info, coap_bin_const_t *a_raw_packet, coap_bin_const_t *a_oscore_info, void *user_data);
+int __CPROVER_file_local_coap_subscribe_c_coap_op_observe_deleted(coap_session_t *session, coap_subscription_t *d_observe_key, void *user_data);
 int __CPROVER_file_local_coap_subscribe_c_coap_op_dyn_resource_added(coap_session_t *session, coap_str_const_t *resource_name, coap_bin_const_t *packet, void *user_data);
 int __CPROVER_file_local_coap_subscribe_c_coap_op_resource_deleted(coap_context_t *context, coap_str_const_t *resource_name, void *user_data);
 int __CPROVER_file_local_coap_subscribe_c_coap_op_obs_cnt_track_observe(coap_context_t *context, coap_str_const_t *resource_name, uint32_t n_observe_num, void *user_data);
@@ -212,10 +215,9 @@ VERIF_HARNESS(c17_l1_counter) {
   int k;
   for (k = 0; k < 4; k++) VERIF_ASSUME(dg[k] >= '0' && dg[k] <= '9');
   uint32_t saved = (uint32_t)(dg[0] - '0') * 1000 + (uint32_t)(dg[1] - '0') * 100 + (uint32_t)(dg[2] - '0') * 10 + (uint32_t)(dg[3] - '0');
-  /* the library saves when observe % save_freq == 0 (coap_resource_notify_observers_lkd) */
-  VERIF_ASSUME(saved % freq == 0);
-  /* values that can have been put on the wire since the save that wrote 'saved': saved .. saved+freq-1 */
-  VERIF_ASSUME(sent >= saved && sent < saved + freq);
+  /* values that can have been put on the wire since the save that wrote 'saved' (S2: the counter invariant - no multiple of
+   * save_freq lies in (saved, sent]; the saved value itself need NOT be a multiple: coap_add_observer saves at registration) */
+  VERIF_ASSUME(sent >= saved && sent / freq == saved / freq);
   setup();
   ctx.observe_save_freq = freq;
   memfs_files[0].exists = 1;
@@ -233,4 +235,158 @@ VERIF_HARNESS(c17_l1_counter) {
   uint32_t first = (cnt_res.observe + 1) & 0xFFFFFF;
   VERIF_ASSERT(first > sent, "L1 the first Observe value sent after restart is greater than any value sent before the crash");
   VERIF_REACH("L1 end");
+}
+
+/* ---- S2: the counter invariant "no multiple of save_freq lies in (value on file, current Observe value]" ------------------------
+ * is preserved by one real coap_resource_notify_observers_lkd() step from every state (the value on file is whatever the
+ * tracking callback was last given; L1 shows that the loader's round-up is right for every state satisfying the invariant). */
+static uint32_t s2_file;
+static int s2_saves;
+static int
+s2_track(coap_context_t *context, coap_str_const_t *resource_name, uint32_t observe_num, void *user_data) {
+  (void)context; (void)resource_name; (void)user_data;
+  s2_file = observe_num;
+  s2_saves++;
+  return 1;
+}
+void coap_update_io_timer(coap_context_t *context, coap_tick_t delay) { (void)context; (void)delay; }
+VERIF_HARNESS(c17_s2_counter_step) {
+#ifndef FREQ
+#define FREQ 1
+#endif
+  const uint32_t freq = FREQ;
+  static coap_subscription_t sub;
+  VERIF_IN(uint32_t, observe);
+  VERIF_IN(uint32_t, on_file);
+  VERIF_ASSUME(observe <= 0xFFFFFF && on_file <= observe && observe / freq == on_file / freq);
+  setup();
+  ctx.observe_save_freq = freq;
+  ctx.track_observe_value = s2_track;
+  memset(&cnt_res, 0, sizeof(cnt_res));
+  cnt_res.context = &ctx;
+  cnt_res.observable = 1;
+  cnt_res.subscribers = &sub;
+  cnt_res.observe = observe;
+  s2_file = on_file;
+  int r = coap_resource_notify_observers_lkd(&cnt_res, NULL);
+  VERIF_ASSERT(r == 1 && cnt_res.observe == ((observe + 1) & 0xFFFFFF), "S2 a notification trigger advances the Observe counter by one (mod 2^24)");
+  VERIF_ASSERT(s2_file <= cnt_res.observe && cnt_res.observe / freq == s2_file / freq,
+               "S2 the value on file is never more than a partial save interval behind the counter in use (no multiple of save_freq is passed without a save)");
+#ifdef WITNESS
+  if (s2_saves == 1 && observe != 0xFFFFFF) VERIF_REACH("S2 step with a save");
+#endif
+}
+
+/* ---- S3: registration establishes the counter invariant ------------------------------------------------------------------------
+ * a new subscription (real coap_add_observer) hands the counter in use to the tracking callback, whatever its value: from then on
+ * the file has an entry for the resource and S2/L1 apply. */
+#ifdef C17_REGISTRATION
+coap_cache_key_t *
+coap_cache_derive_key_w_ignore(coap_session_t *session, const coap_pdu_t *pdu, coap_cache_session_based_t session_based,
+                               const uint16_t *cache_ignore_options, size_t cache_ignore_count) {
+  (void)session; (void)pdu; (void)session_based; (void)cache_ignore_options; (void)cache_ignore_count;
+  coap_cache_key_t *k = (coap_cache_key_t *)coap_malloc_type(COAP_CACHE_KEY, sizeof(coap_cache_key_t));
+  if (k) memset(k, 0, sizeof(*k));       /* hashing (GnuTLS) is not the subject: every request hashes to the same key */
+  return k;
+}
+void coap_delete_cache_key(coap_cache_key_t *cache_key) { coap_free_type(COAP_CACHE_KEY, cache_key); }
+coap_session_t *coap_session_reference_lkd(coap_session_t *session) { ++session->ref; return session; }
+/* coap_session.c is not part of this job: the two session helpers coap_pdu_duplicate_lkd uses */
+size_t coap_session_max_pdu_size_lkd(const coap_session_t *session) { (void)session; return 1148; }
+uint16_t coap_new_message_id_lkd(coap_session_t *session) { return ++session->tx_mid; }
+void coap_show_pdu(coap_log_t level, const coap_pdu_t *pdu) { (void)level; (void)pdu; }
+
+VERIF_HARNESS(c17_s3_registration) {
+#ifndef FREQ
+#define FREQ 1
+#endif
+  VERIF_IN(uint32_t, observe);
+  VERIF_IN_BUF(tok, 2);
+  VERIF_ASSUME(observe <= 0xFFFFFF);
+  setup();
+  ctx.observe_save_freq = FREQ;
+  ctx.track_observe_value = s2_track;
+  memset(&cnt_res, 0, sizeof(cnt_res));
+  cnt_res.context = &ctx;
+  cnt_res.observable = 1;
+  cnt_res.observe = observe;
+  sess.mtu = 1152;
+  coap_pdu_t *req = coap_pdu_init(COAP_MESSAGE_CON, COAP_REQUEST_CODE_GET, 0x1234, 64);
+  VERIF_ASSUME(req != NULL);
+  coap_add_token(req, 2, tok);
+  coap_bin_const_t token = {2, req->actual_token.s};
+  s2_saves = 0;
+  coap_subscription_t *s = coap_add_observer(&cnt_res, &sess, &token, req);
+  VERIF_ASSERT(s != NULL && cnt_res.subscribers == s, "S3 a first registration creates the subscription");
+  VERIF_ASSERT(cnt_res.observe == observe, "S3 registration does not change the counter");
+  VERIF_ASSERT(s2_saves >= 1 && s2_file == cnt_res.observe,
+               "S3 a new subscription puts the counter in use on file (the restart round-up needs an entry for the resource)");
+  VERIF_REACH("S3 end");
+}
+#endif
+
+/* ---- B1o: the observe-subscription file (coap_op_observe_added / coap_op_observe_deleted), crash at any point ------------------
+ * records: subscription key, protocol, listening address, session address tuple, request packet, "no OSCORE data" marker.
+ * Keys are opaque to these functions (compared and copied, never dereferenced): two fixed non-null values. */
+#define KEY_A ((coap_subscription_t *)(uintptr_t)0x1000)
+#define KEY_B ((coap_subscription_t *)(uintptr_t)0x2000)
+static coap_address_t o_listen;
+static coap_addr_tuple_t o_tuple_a, o_tuple_b;
+static size_t
+ref_obs_record(uint8_t *out, coap_subscription_t *key, const coap_addr_tuple_t *tuple, const coap_bin_const_t *pkt) {
+  size_t o = 0;
+  coap_proto_t p = COAP_PROTO_UDP;
+  ssize_t none = -1;
+  memcpy(out + o, &key, sizeof(key)); o += sizeof(key);
+  memcpy(out + o, &p, sizeof(p)); o += sizeof(p);
+  memcpy(out + o, &o_listen, sizeof(o_listen)); o += sizeof(o_listen);
+  memcpy(out + o, tuple, sizeof(*tuple)); o += sizeof(*tuple);
+  memcpy(out + o, &pkt->length, sizeof(size_t)); o += sizeof(size_t);
+  memcpy(out + o, pkt->s, pkt->length); o += pkt->length;
+  memcpy(out + o, &none, sizeof(none)); o += sizeof(none);
+  return o;
+}
+VERIF_HARNESS(c17_b1_observe) {
+  VERIF_IN_BUF(pa, 4);
+  VERIF_IN_BUF(pb, 4);
+  const int crash = CRASH;
+  coap_bin_const_t pkt_a = {4, pa}, pkt_b = {4, pb};
+  static uint8_t pre[MEMFS_CAP], post[MEMFS_CAP];
+  size_t npre = 0, npost = 0;
+  setup();
+  o_listen.size = sizeof(struct sockaddr_in);
+  o_listen.addr.sin.sin_family = AF_INET;
+  o_listen.addr.sin.sin_port = 0x3316;
+  o_tuple_a.remote = o_listen; o_tuple_a.local = o_listen; o_tuple_a.remote.addr.sin.sin_addr.s_addr = 0x0a00000a;
+  o_tuple_b = o_tuple_a; o_tuple_b.remote.addr.sin.sin_addr.s_addr = 0x0b00000a;
+#if OP == 0 || OP == 1
+  VERIF_ASSERT(__CPROVER_file_local_coap_subscribe_c_coap_op_observe_added(&sess, KEY_A, COAP_PROTO_UDP, &o_listen, &o_tuple_a, &pkt_a, NULL, NULL) == 1, "B1o first subscription saved");
+  npre = ref_obs_record(pre, KEY_A, &o_tuple_a, &pkt_a);
+#endif
+#if OP == 1
+  VERIF_ASSERT(__CPROVER_file_local_coap_subscribe_c_coap_op_observe_added(&sess, KEY_B, COAP_PROTO_UDP, &o_listen, &o_tuple_b, &pkt_b, NULL, NULL) == 1, "B1o second subscription saved");
+  npre += ref_obs_record(pre + npre, KEY_B, &o_tuple_b, &pkt_b);
+#endif
+#if OP != 2
+  VERIF_ASSERT(file_equals(main_file("o"), pre, npre), "B1o the file holds exactly the subscriptions saved so far, in order (complete state before the update)");
+#endif
+  memfs_ops = 0; memfs_crash_at = crash; memfs_frozen = 0;
+#if OP == 0
+  (void)__CPROVER_file_local_coap_subscribe_c_coap_op_observe_added(&sess, KEY_B, COAP_PROTO_UDP, &o_listen, &o_tuple_b, &pkt_b, NULL, NULL);
+  memcpy(post, pre, npre); npost = npre + ref_obs_record(post + npre, KEY_B, &o_tuple_b, &pkt_b);
+#elif OP == 1
+  (void)__CPROVER_file_local_coap_subscribe_c_coap_op_observe_deleted(&sess, KEY_A, NULL);
+  npost = ref_obs_record(post, KEY_B, &o_tuple_b, &pkt_b);
+#else
+  (void)__CPROVER_file_local_coap_subscribe_c_coap_op_observe_added(&sess, KEY_A, COAP_PROTO_UDP, &o_listen, &o_tuple_a, &pkt_a, NULL, NULL);
+  npost = ref_obs_record(post, KEY_A, &o_tuple_a, &pkt_a);
+#endif
+  {
+    int f = main_file("o");
+    int is_pre = (npre == 0 && f < 0) || file_equals(f, pre, npre);
+    int is_post = file_equals(f, post, npost);
+    VERIF_ASSERT(is_pre || is_post, "B1o after a crash at any point the observe file holds the complete old or the complete new set of subscriptions, never a mixture");
+    if (crash < 0 || !memfs_frozen) VERIF_ASSERT(is_post, "B1o without a crash the new set is in place");
+  }
+  VERIF_REACH("B1o end");
 }
